@@ -186,75 +186,105 @@ func Run(c *engine.Ctx) {
 				if et == 18 && cred == "keytab" || c.Thorough() {
 					bits = allBits
 				}
-				for _, p := range perturbations(et, bits) {
-					o := cworld.DefaultOpts()
-					o.Cred, o.ETypes = cred, []int32{et}
-					if exch == "AS+PA" {
-						o.PreAuth = "required"
+				// world variants (two etypes only): every exchange forced onto TCP by RESPONSE_TOO_BIG over UDP; a
+				// two-component client principal whose keytab also holds a newer sibling/<instance> entry
+				variants := []string{""}
+				if et == 18 || et == 23 {
+					variants = []string{"", "udp-too-big", "user-instance"}
+				}
+				for _, variant := range variants {
+					perts := perturbations(et, bits)
+					if variant != "" {
+						perts = perturbations(et, []int{0, -1})
 					}
-					vclock.Set(cworld.T0)
-					w := cworld.New(o)
-					rec := caseRec{o, exch, p.name}
-					want := p.as
-					if exch == "TGS" {
-						want = p.tgs
-					}
-					hook := func(r *simkdc.Reply) {
-						if (exch == "TGS") == (r.Exchange == "TGS") {
-							p.apply(r, et, w)
-						}
-					}
-					var err error
-					pn := safe(func() {
-						if exch == "TGS" {
-							if e := w.Client.Login(); e != nil {
-								engine.Fatal("unperturbed login failed: %v", e)
+					if variant == "user-instance" && cred == "keytab" && exch != "TGS" {
+						perts = append(perts, pert{"enc-part-under-sibling-principal-key", func(r *simkdc.Reply, et int32, w *cworld.World) {
+							for _, k := range w.SiblingKeys {
+								if k.Etype == r.EncEtype {
+									r.EncKey = k.Value
+								}
 							}
-							w.KDC.Perturb = hook
-							_, _, err = w.Client.GetServiceTicket(spn)
-						} else {
-							w.KDC.Perturb = hook
-							err = w.Client.Login()
-						}
-					})
-					evals++
-					cl := classOf(p.name)
-					if pn != "" {
-						c.Violate("perturb", fmt.Sprintf("panic:%s:%s", exch, cl), map[string]interface{}{"panic": pn}, rec)
-						continue
+						}, "reject", ""})
 					}
-					sessions, cache := w.Client.VerifSessions(), w.Client.VerifCache()
-					switch want {
-					case "reject":
-						if err == nil {
-							c.Violate("perturb", fmt.Sprintf("accepts:%s:%s", exch, cl), map[string]interface{}{"etype": et, "cred": cred}, rec)
+					for _, p := range perts {
+						o := cworld.DefaultOpts()
+						o.Cred, o.ETypes = cred, []int32{et}
+						o.UDPTooBig = variant == "udp-too-big"
+						if variant == "user-instance" {
+							o.UserInstance = "client.test.gokrb5"
+						}
+						if exch == "AS+PA" {
+							o.PreAuth = "required"
+						}
+						vclock.Set(cworld.T0)
+						w := cworld.New(o)
+						rec := caseRec{o, exch, p.name}
+						want := p.as
+						if exch == "TGS" {
+							want = p.tgs
+						}
+						hook := func(r *simkdc.Reply) {
+							if (exch == "TGS") == (r.Exchange == "TGS") {
+								p.apply(r, et, w)
+							}
+						}
+						var err, prelude error
+						pn := safe(func() {
+							if exch == "TGS" {
+								if e := w.Client.Login(); e != nil {
+									prelude = e
+									return
+								}
+								w.KDC.Perturb = hook
+								_, _, err = w.Client.GetServiceTicket(spn)
+							} else {
+								w.KDC.Perturb = hook
+								err = w.Client.Login()
+							}
+						})
+						evals++
+						cl := classOf(p.name)
+						if prelude != nil {
+							c.Violate("perturb", "rejects-genuine:AS:login-before-the-TGS-exchange", map[string]interface{}{"err": trunc(prelude.Error()), "etype": et, "cred": cred}, rec)
 							continue
 						}
-						if exch != "TGS" && len(sessions) != 0 {
-							c.Violate("perturb", fmt.Sprintf("session-created-although-rejected:%s:%s", exch, cl), nil, rec)
+						if pn != "" {
+							c.Violate("perturb", fmt.Sprintf("panic:%s:%s", exch, cl), map[string]interface{}{"panic": pn}, rec)
 							continue
 						}
-						if exch == "TGS" && len(cache) != 0 {
-							c.Violate("perturb", fmt.Sprintf("ticket-cached-although-rejected:%s", cl), nil, rec)
-							continue
+						sessions, cache := w.Client.VerifSessions(), w.Client.VerifCache()
+						switch want {
+						case "reject":
+							if err == nil {
+								c.Violate("perturb", fmt.Sprintf("accepts:%s:%s", exch, cl), map[string]interface{}{"etype": et, "cred": cred}, rec)
+								continue
+							}
+							if exch != "TGS" && len(sessions) != 0 {
+								c.Violate("perturb", fmt.Sprintf("session-created-although-rejected:%s:%s", exch, cl), nil, rec)
+								continue
+							}
+							if exch == "TGS" && len(cache) != 0 {
+								c.Violate("perturb", fmt.Sprintf("ticket-cached-although-rejected:%s", cl), nil, rec)
+								continue
+							}
+						case "accept":
+							if err != nil {
+								c.Violate("perturb", fmt.Sprintf("rejects-genuine:%s:%s", exch, cl), map[string]interface{}{"err": trunc(err.Error()), "etype": et, "cred": cred}, rec)
+								continue
+							}
+							if d := matchesIssueLog(w, exch, spn, sessions, cache); d != "" {
+								c.Violate("perturb", fmt.Sprintf("state-differs-from-issue-log:%s:%s", exch, cl), map[string]interface{}{"diff": d}, rec)
+								continue
+							}
+						default:
+							c.Add("not_judged", 1)
 						}
-					case "accept":
-						if err != nil {
-							c.Violate("perturb", fmt.Sprintf("rejects-genuine:%s:%s", exch, cl), map[string]interface{}{"err": trunc(err.Error()), "etype": et, "cred": cred}, rec)
-							continue
+						if v := w.Violations(); len(v) > 0 {
+							// request validation belongs to C10; recorded here only as a note
+							c.Add("request_validation_notes", int64(len(v)))
 						}
-						if d := matchesIssueLog(w, exch, spn, sessions, cache); d != "" {
-							c.Violate("perturb", fmt.Sprintf("state-differs-from-issue-log:%s:%s", exch, cl), map[string]interface{}{"diff": d}, rec)
-							continue
-						}
-					default:
-						c.Add("not_judged", 1)
+						c.Distinct(fmt.Sprintf("%d/%s/%s/%s/%s/%v", et, cred, exch, variant, cl, err == nil))
 					}
-					if v := w.Violations(); len(v) > 0 {
-						// request validation belongs to C10; recorded here only as a note
-						c.Add("request_validation_notes", int64(len(v)))
-					}
-					c.Distinct(fmt.Sprintf("%d/%s/%s/%s/%v", et, cred, exch, cl, err == nil))
 				}
 			}
 		}
@@ -344,7 +374,7 @@ func staleReplies(c *engine.Ctx, evals *int64) {
 					err2 = w.NewClient().Login()
 				} else {
 					if e := w.Client.Login(); e != nil {
-						engine.Fatal("login: %v", e)
+						engine.FailValid("Client.Login against the unperturbed KDC", e)
 					}
 					_, _, err1 = w.Client.GetServiceTicket("HTTP/host.test.gokrb5")
 					_, _, err2 = w.Client.GetServiceTicket("HTTP/host2.test.gokrb5")
@@ -395,7 +425,7 @@ func krbErrors(c *engine.Ctx, evals *int64) {
 			pn := safe(func() {
 				if exch == "TGS" {
 					if e := w.Client.Login(); e != nil {
-						engine.Fatal("login: %v", e)
+						engine.FailValid("Client.Login against the unperturbed KDC", e)
 					}
 					_, _, err = w.Client.GetServiceTicket("HTTP/host.test.gokrb5")
 				} else {
